@@ -52,7 +52,7 @@ OBLIGATIONS = [
     "C02_pop_block_rejected", "C02_pop_block_accepted", "C02_pop_step", "C02_ind_step", "C02_examples",
     # composition with C15 (graph hypothesis WF discharged for every graph the modelled DAG constructor builds) and with C07
     # (F_mix proved from the op-kind semantics; axis_read_ok from the well_typed checker): coq/theories/Compose, docs/Compose.md
-    "C02_full_revert_built", "C02_pop_step_built", "C02_opkind_functions_commute_with_selection", "C02_F_mix_opkinds",
+    "C02_full_revert_built", "C02_pop_step_built", "C02_full_revert_from_definitions", "C02_pop_step_from_definitions", "C02_opkind_functions_commute_with_selection", "C02_F_mix_opkinds",
     "C02_axis_closed_well_typed", "C02_partial_revert_well_typed", "C02_partial_revert_as_if_well_typed",
     "C02_ind_step_well_typed", "C02_later_history_opkinds", "C02_compose_examples",
     # weighted values (State/StateWExec.v): mix = _select = row-wise selection of value AND weight
